@@ -74,6 +74,22 @@ def run(repo: Repo, rep: Report, tier: str) -> None:
     def vis_call(n: ast.AST, meths: Tuple[str, ...]) -> bool:
         return any(isinstance(c.func, ast.Attribute) and c.func.attr in meths and is_vis(c.func.value) for c in calls_in(n))
 
+    # `with <Class>._marked(obj_id, visited):` - a context manager of the class that adds on entry and removes in a finally
+    def _cm_pairs_add_remove(f: Function) -> bool:
+        decos = [(dotted(d.func if isinstance(d, ast.Call) else d) or "").split(".")[-1] for d in f.node.decorator_list]  # type: ignore[attr-defined]
+        if "contextmanager" not in decos:
+            return False
+        has_add = any(isinstance(c, ast.Call) and isinstance(c.func, ast.Attribute) and c.func.attr == "add" for c in ast.walk(f.node))
+        tries = [t for t in ast.walk(f.node) if isinstance(t, ast.Try) and t.finalbody and any(isinstance(y, (ast.Yield, ast.YieldFrom)) for b in t.body for y in ast.walk(b))
+                 and any(isinstance(c, ast.Call) and isinstance(c.func, ast.Attribute) and c.func.attr in ("remove", "discard") for fb in t.finalbody for c in ast.walk(fb))]
+        return has_add and bool(tries)
+
+    cm_names = {hn for hn, hf in ds.methods.items() if _cm_pairs_add_remove(hf)}
+    cm_withs = [w for w in own_nodes(swt.node) if isinstance(w, ast.With) and any(
+        isinstance(it.context_expr, ast.Call) and isinstance(it.context_expr.func, ast.Attribute) and it.context_expr.func.attr in cm_names
+        and any(is_vis(a) for a in it.context_expr.args) for it in w.items)]
+    in_cm_with = {id(x) for w in cm_withs for st in w.body for x in ast.walk(st)}
+
     # visited check dominates every descent
     vis_tests = [n for n in cfg.nodes if n.kind == "test" and any(
         isinstance(x, ast.Compare) and len(x.ops) == 1 and isinstance(x.ops[0], ast.In) and is_vis(x.comparators[0]) for x in ast.walk(n.ast))]
@@ -85,7 +101,7 @@ def run(repo: Repo, rep: Report, tier: str) -> None:
         guarded = any(t.id in dom[dn.id] for t in vis_tests)
         delegated = any(c.endswith("unstructure_to_dict") for c in calls)
         # is the object registered in visited around the call? (an enclosing try whose preceding statement is visited.add)
-        added = any(isinstance(x.ast, ast.Expr) and vis_call(x.ast, ("add",)) and x.id in dom[dn.id] for x in cfg.nodes if x.ast is not None)
+        added = any(isinstance(x.ast, ast.Expr) and vis_call(x.ast, ("add",)) and x.id in dom[dn.id] for x in cfg.nodes if x.ast is not None) or id(dn.ast) in in_cm_with
         what = "delegation to cattrs" if delegated else "recursive descent"
         sub = f"{utils.relpath}:DataclassSerializer._serialize_with_tracking {what} ({'tracked' if added else 'untracked'} object)"
         if delegated:
@@ -101,8 +117,9 @@ def run(repo: Repo, rep: Report, tier: str) -> None:
     # visited.add is always undone (try/finally)
     adds = [n for n in own_nodes(swt.node) if isinstance(n, ast.Expr) and vis_call(n, ("add",))]
     fin = [t for t in own_nodes(swt.node) if isinstance(t, ast.Try) and t.finalbody and any(vis_call(f, ("remove", "discard")) for f in t.finalbody)]
-    if adds and len(fin) == len(adds):
-        rep.ok("R16.2", f"{utils.relpath}:_serialize_with_tracking visited bookkeeping", f"{len(adds)} visited.add each undone in a finally", swt.loc())
+    if (adds or cm_withs) and len(fin) == len(adds):
+        rep.ok("R16.2", f"{utils.relpath}:_serialize_with_tracking visited bookkeeping",
+               f"{len(adds)} visited.add each undone in a finally" + (f", {len(cm_withs)} `with` block(s) of an add/finally-remove context manager" if cm_withs else ""), swt.loc())
     elif not adds:
         raise AnalysisError("anchor vanished: no <visited>.add(...) statement in _serialize_with_tracking")
     else:
